@@ -314,8 +314,8 @@ namespace ST
     {
         enum { num_formatters = 1 + sizeof...(args) };
         formatter_ref_t formatters[num_formatters] = {
-            make_formatter_ref(std::forward<arg0_T>(arg0)),
-            make_formatter_ref(std::forward<args_T>(args))...
+            make_formatter_ref(arg0),
+            make_formatter_ref(args)...
         };
         size_t index = 0;
         while (data.next_format()) {
